@@ -435,24 +435,35 @@ pub fn gen_mod_dense(src: &mut Src, opts: &LayoutOpts) -> GenLayout {
 // own distinguished output and its own Special chord - tables indexed by small integers,
 // per-layout caches and the like only overflow here. No absorbing.
 pub fn gen_huge(src: &mut Src, _opts: &LayoutOpts) -> GenLayout {
-  let n = src.pick(&[255usize, 256, 257, 258, 300, 511, 512, 513, 600]);
+  // (rarely a giant one around 2^16 mappings)
+  let n = if src.chance(4) { src.pick(&[65_536usize, 65_537, 66_000, 70_000]) } else { src.pick(&[255usize, 256, 257, 258, 300, 511, 512, 513, 600]) };
   let nm = nonmod_codes();
   let finals: Vec<KeyCode> = nm.iter().cloned().filter(|k| code_of(*k) < 183).collect(); // ~150 keys
   let tags: Vec<KeyCode> = nm.iter().cloned().filter(|k| code_of(*k) >= 183).collect(); // ~320 keys
-  let mut mappings = Vec::new();
+  let mut mappings = Vec::with_capacity(n);
   for i in 0..n {
     let f = finals[i % finals.len()];
     let layer = i / finals.len();
     let mut from: Vec<KeyCode> = Vec::new();
-    if layer > 0 {
+    if layer > 0 && layer <= 8 {
       from.push(STD_MODIFIERS[(layer - 1) % 8]);
+    } else if layer > 8 {
+      // layers beyond the eight modifiers: two layer keys taken from the high codes
+      let l = layer - 9;
+      let a = tags[l % 40];
+      let b = tags[40 + (l / 40) % 40];
+      from.push(a);
+      from.push(b);
     }
     from.push(f);
-    let to: Vec<KeyCode> = if i < tags.len() { vec![tags[i]] } else { vec![] };
+    // (beyond the first few hundred the outputs are no longer unique, but every mapping has one)
+    let to: Vec<KeyCode> = if i < tags.len() || i % 5 != 0 { vec![tags[i % tags.len()]] } else { vec![] };
     let a = tags[(i * 3 + 1) % tags.len()];
     let b = tags[(i * 5 + 2) % tags.len()];
     let keys = if a != b { vec![STD_MODIFIERS[i % 8], a, b] } else { vec![STD_MODIFIERS[i % 8], a] };
-    let repeat = if src.chance(85) { Repeat::Special { keys, delay_ms: 100 + i as i32, interval_ms: 10 + (i % 50) as i32 } } else { Repeat::Normal };
+    // (giant layouts must not eat the tape: one draw per mapping only below 1000)
+    let special = if n > 1000 { i % 7 != 3 } else { src.chance(85) };
+    let repeat = if special { Repeat::Special { keys, delay_ms: 100 + i as i32, interval_ms: 10 + (i % 50) as i32 } } else { Repeat::Normal };
     mappings.push(Mapping { from, to, repeat, absorbing: vec![] });
   }
   let layout = Layout { mappings };
@@ -461,6 +472,18 @@ pub fn gen_huge(src: &mut Src, _opts: &LayoutOpts) -> GenLayout {
   let mut alphabet: Vec<KeyCode> = (0..10).map(|j| finals[(start + j * 13) % finals.len()]).collect();
   for m in STD_MODIFIERS.iter().take(4) {
     alphabet.push(*m);
+  }
+  // some output keys can be pressed physically as well: those of late mappings and of the
+  // mappings on the final key with the highest code (the far end of any table sorted by key)
+  let hi = layout.mappings.iter().map(|m| *m.from.last().unwrap()).max().unwrap();
+  let on_hi: Vec<&Mapping> = layout.mappings.iter().filter(|m| *m.from.last().unwrap() == hi).collect();
+  let late = layout.mappings.iter().rev().take(400).step_by(57);
+  for m in late.chain(on_hi.iter().rev().take(8).cloned()).chain(on_hi.iter().take(2).cloned()) {
+    for k in &m.to {
+      if !alphabet.contains(k) {
+        alphabet.push(*k);
+      }
+    }
   }
   GenLayout { layout, alphabet, family: "huge".to_string() }
 }
